@@ -1,5 +1,5 @@
 //! Generic in-process script worker shared by the differential checks.
-//! Request (JSON):  {"s": script, "files": {rel: content}, "vars": {name: value}, "arrays": {name: [..]},
+//! Request (JSON):  {"s": script, "mode": "string"|"file"|"dash-c", "files": {rel: content}, "vars": {name: value}, "arrays": {name: [..]},
 //!                   "pos": [..], "get": [names], "collect": bool, "opts": [set -o names], "shopts": [..]}
 //! Response (JSON): {"o": stdout, "e": stderr, "st": status, "flow": "...", "vars": {name: value|null},
 //!                   "files": {rel: content}}
@@ -46,7 +46,15 @@ pub fn script_worker() -> Handler {
                 let p: Vec<String> = pos.iter().map(|x| x.as_str().unwrap_or("").to_string()).collect();
                 *sh.current_shell_args_mut() = p;
             }
-            let r = ipr.run_on(&mut sh, v["s"].as_str().unwrap_or("")).await;
+            let r = match v["mode"].as_str() {
+                Some("file") => {
+                    let path = dir.join("s.sh");
+                    std::fs::write(&path, v["s"].as_str().unwrap_or("")).expect("write script file");
+                    ipr.run_file_on(&mut sh, &path, &[]).await
+                }
+                Some("dash-c") => ipr.run_dash_c_on(&mut sh, v["s"].as_str().unwrap_or("")).await,
+                _ => ipr.run_on(&mut sh, v["s"].as_str().unwrap_or("")).await,
+            };
             let mut vars = serde_json::Map::new();
             if let Some(get) = v["get"].as_array() {
                 for g in get {
